@@ -1,8 +1,10 @@
 """C01 — find_answer decides satisfiability and leaves a genuine model in .sol."""
 import hashlib
+import os
 import warnings
 
 import c01gen as G
+import c01hard as H
 import c01translate
 import vlib
 
@@ -208,6 +210,7 @@ def exhaustive_small():
 
 def translate(ctx):
     c01translate.translate()
+    c01translate.translate_solve()
 
 
 # ----------------------------------------------------------------- correspondence
@@ -350,6 +353,134 @@ def correspond(ctx):
     for run, o in zip(runs, outs):
         ctx.corr("session", run["ops_tok"], o, " ".join(run["outs"]) + " | " + run["final"])
     ctx._c01["sessions"] = runs
+    correspond_hard(ctx, m)
+
+
+def one_of(mo_list, impl):
+    """the model outcome to compare with: the one that equals the implementation's if any
+    (z3 under a limit may or may not give up on a query), else the first."""
+    for mo in mo_list:
+        if mo == impl:
+            return mo
+    return mo_list[0]
+
+
+def verdict_of(o):
+    mo = parse_model_reply(o)
+    return mo if mo[0] == "err" else ("ok", mo[1].startswith("S"))
+
+
+def correspond_hard(ctx, m):
+    """second generation of inputs (see c01hard.py): container forms incl. one-shot iterables,
+    run-time ints outside the small-int cache, backend naming forms, array declarations,
+    non-default cspuz.config / z3 global parameters (time and resource limits: z3 may answer
+    unknown), interleaved sessions with call histories."""
+    import exprio
+    from cspuz import Solver
+    from cspuz import constraints as C
+    rng = ctx.rng
+    data = ctx._c01
+    data.update({"cases": [], "hard": [], "sessions2": []})
+
+    # verdict test of Z3Backend.solve: the generated table the model runs on is the translator's reading
+    ctx.corr("solve-table", "Z3Backend.solve verdict test", m.call("FALSEON"),
+             "sat=%d unsat=%d unknown=%d" % tuple(int(c01translate.read_solve(
+                 os.path.join(vlib.REPO, "cspuz", "backend", "z3.py"))[k]) for k in c01translate.KINDS))
+
+    # (a'') helper constructors in every container form vs Core/Build.v on the materialised list
+    reqs, impl, labels = [], [], []
+    for it in range(330 if not ctx.thorough else 3300):
+        decls = H.gen_decls2(rng)
+        s = Solver()
+        vs = H.declare2(s, decls, rng.choice(["single", "array"]))
+        g = H.Gen2(rng, decls, force_p=0.25)
+        f = rng.choice(["count_true", "fold_or", "fold_and", "alldifferent"])
+        form = H.FORMS[it % len(H.FORMS)]
+        xs = [H.build2(x, vs) for x in (g.nary_int_list(2) if f == "alldifferent" else g.nary_bool_list(2))]
+        if rng.random() < 0.1:
+            xs.insert(rng.randint(0, len(xs)), H.build2(g.gbool(1) if f == "alldifferent" else g.gint(1), vs))
+        ctx.count("build-form:" + form)
+        reqs.append("BUILD %s %s" % (f, exprio.show_list(xs)))
+        snap = list(xs)
+        r = vlib.guarded(lambda: exprio.show(getattr(C, f)(*H.wrap(form, xs))))
+        impl.append(norm_impl(r))
+        labels.append(("build-forms", "%s<%s> %s" % (f, form, exprio.show_list(snap))))
+    for (kind, inp), o, io in zip(labels, m.batch(reqs), impl):
+        ctx.corr(kind, inp, parse_model_reply(o), io)
+
+    # (d) find_answer on enumerable programs delivered in every form (default environment)
+    n_case = 330 if not ctx.thorough else 4000
+    if getattr(ctx, "deep", False):
+        n_case *= 2
+    cases = []
+    for it in range(n_case):
+        case = H.gen_case(ctx, rng)
+        case["hf"] = H.HFORMS[it % len(H.HFORMS)]
+        case["ef"] = H.EFORMS[(it // 3) % len(H.EFORMS)]
+        r, sols, trees, s = H.run_case(case)
+        st = G.state_tok(case["decls"], [False] * len(case["decls"]), trees)
+        cases.append({"case": case, "r": r, "sols": sols, "st": st})
+    outs = m.batch(["FIND " + c["st"] for c in cases])
+    for c, o in zip(cases, outs):
+        c["model"] = verdict_of(o)
+        ctx.corr("find-forms", H.case_label(c["case"]) + " " + c["st"], c["model"], c["r"])
+
+    # (e) the same programs' kin under non-default cspuz.config settings, and (f) with z3 made to
+    # give up (global rlimit / timeout): the model's three-valued solve either answers or gives up
+    n_env = 160 if not ctx.thorough else 1500
+    envc = []
+    for it in range(n_env):
+        case = H.gen_case(ctx, rng)
+        case["env"] = H.gen_env(rng)
+        envc.append(case)
+    for it, c in enumerate(cases[: (140 if not ctx.thorough else 1200)]):
+        case = dict(c["case"])
+        case["env"] = {"z3": rng.choice([{"rlimit": 1}, {"rlimit": 60}, {"rlimit": 1000}, {"rlimit": 20000}, {"timeout": 1}])}
+        envc.append(case)
+    runs = []
+    for case in envc:
+        ctx.count("env:" + ("z3-limit" if case["env"].get("z3") else ",".join(sorted(case["env"].get("config", {})) or ["none"])))
+        r, sols, trees, s = H.run_case(case)
+        st = G.state_tok(case["decls"], [False] * len(case["decls"]), trees)
+        runs.append({"case": case, "r": r, "sols": sols, "st": st})
+        ctx.count("env-outcome:%s:%s" % ("z3-limit" if case["env"].get("z3") else "config", r[0] if r[0] == "err" else r[1]))
+    o_real = m.batch(["FIND3 R " + c["st"] for c in runs])
+    o_unk = m.batch(["FIND3 U " + c["st"] for c in runs])
+    for c, a, b in zip(runs, o_real, o_unk):
+        ms = [verdict_of(a)] + ([verdict_of(b)] if H.env_has_limit(c["case"]["env"]) else [])
+        c["model"] = one_of(ms, c["r"])
+        ctx.corr("find-env", H.case_label(c["case"]) + " " + c["st"], c["model"], c["r"])
+    data["cases"] = cases + runs
+
+    # (g) larger instances with a known answer under time / resource limits (no model run: the
+    # brute-force oracle cannot enumerate them; judged in search against the planted answer)
+    hard = []
+    for inst in H.hard_instances(rng, ctx.thorough):
+        for env in H.LIMIT_ENVS:
+            case = dict(inst)
+            case.update({"hf": rng.choice(H.HFORMS), "ef": rng.choice(H.EFORMS), "bf": rng.choice(H.BFORMS),
+                         "decl": rng.choice(["single", "array"]), "env": env})
+            ctx.count("hard:" + inst["name"])
+            r, sols, trees, s = H.run_case(case)
+            hard.append({"case": case, "r": r, "sols": sols})
+            ctx.count("hard-outcome:%s:%s" % (H.env_tok(env), r[0] if r[0] == "err" else r[1]))
+    data["hard"] = hard
+
+    # (h) interleaved sessions with histories
+    n_pair = 60 if not ctx.thorough else 500
+    reqs, runs2 = [], []
+    for it in range(n_pair):
+        scripts = [H.gen_script(ctx, rng) for _ in range(rng.choice([1, 2, 2, 3]))]
+        rs, order = H.run_interleaved(rng, scripts)
+        for i, run in enumerate(rs):
+            run["scripts"], run["order"], run["index"] = scripts, order, i
+            reqs.append("SESS " + run["ops_tok"])
+            runs2.append(run)
+    for run, o in zip(runs2, m.batch(reqs)):
+        ctx.corr("session-forms", run["ops_tok"], o, " ".join(run["outs"]) + " | " + run["final"])
+        for kind, inp, exp, got in run["side"]:
+            ctx.corr(kind, (inp, run["ops_tok"]), exp, got)
+    data["sessions2"] = runs2
 
 
 def real_session(ctx, rng):
@@ -445,6 +576,7 @@ def search(ctx):
         for it in range(30):
             for f in real_session(ctx, rng)["finds"]:
                 check_program(ctx, f["decls"], f["cons"], f["result"], f["sols"], None, "session")
+    search_hard(ctx, data)
     if getattr(ctx, "deep", False) and not ctx.violations:
         for it in range(1500):
             decls, cons = gen_program(ctx, rng, depth=(1, 5), ncons=(1, 4))
@@ -454,9 +586,82 @@ def search(ctx):
                 break
 
 
+def search_hard(ctx, data):
+    rng = ctx.rng
+    if not (data and data.get("cases")):
+        # the model could not be built / run: generate the second-generation inputs here
+        data = {"cases": [], "hard": [], "sessions2": []}
+        for it in range(400):
+            case = H.gen_case(ctx, rng)
+            if it % 3 == 0:
+                case["env"] = H.gen_env(rng)
+            elif it % 3 == 1:
+                case["env"] = {"z3": rng.choice([{"rlimit": 1}, {"rlimit": 1000}, {"timeout": 1}])}
+            r, sols, trees, s = H.run_case(case)
+            data["cases"].append({"case": case, "r": r, "sols": sols})
+        for inst in H.hard_instances(rng, ctx.thorough):
+            for env in H.LIMIT_ENVS:
+                case = dict(inst)
+                case.update({"hf": "list", "ef": rng.choice(H.EFORMS), "bf": "str", "decl": "single", "env": env})
+                r, sols, trees, s = H.run_case(case)
+                data["hard"].append({"case": case, "r": r, "sols": sols})
+        for it in range(40):
+            scripts = [H.gen_script(ctx, rng) for _ in range(2)]
+            rs, order = H.run_interleaved(rng, scripts)
+            for i, run in enumerate(rs):
+                run["scripts"], run["order"], run["index"] = scripts, order, i
+                data["sessions2"].append(run)
+    failing = []
+    for c in data["cases"] + data["hard"]:
+        case = c["case"]
+        ctx.prop_case("find_answer-vs-enumeration",
+                      ("case", H.case_label(case), G.decls_tok(case["decls"]), tuple(G.show_surface(x) for x in case["cons"])))
+        if H.judge(case, c["r"], c["sols"], H.expected_sat(case)):
+            failing.append(c)
+
+    def rank(c):
+        # deterministic failures first: no limit, then z3's resource limit, then wall-clock limits
+        env = c["case"].get("env") or {}
+        if not H.env_has_limit(env):
+            return 0
+        return 1 if list(env.get("z3", {})) == ["rlimit"] and env.get("config", {}).get("solver_timeout") is None else 2
+    failing.sort(key=rank)
+    seen_rank = {}
+    for c in failing:
+        k = rank(c)
+        if seen_rank.get(k, 0) >= 2:
+            continue
+        seen_rank[k] = seen_rank.get(k, 0) + 1
+        H.report_case(ctx, c["case"], "verdict / sol", observed=(c["r"], c["sols"]),
+                      shrink_budget=100 if not ctx.thorough else 300)
+    n_rep = 0
+    for run in data["sessions2"]:
+        for f in run["finds"]:
+            ctx.prop_case("find_answer-vs-enumeration",
+                          ("session2", run["ops_tok"], f["step"], f["rep"]))
+        probs = H.session_problems(run)
+        if probs and n_rep < 4:
+            n_rep += 1
+            step, cat, text = probs[0]
+            again = H.session_problems(H.replay_scripts(run["scripts"], run["order"])[run["index"]])
+            ctx.violation("fs-" + md5(run["ops_tok"]), "session step %d: %s" % (step, text),
+                          {"script": H.show_script(run["script"]), "scripts": repr(run["scripts"]), "order": run["order"],
+                           "index": run["index"], "step": step, "category": cat, "outs": run["outs"], "final": run["final"],
+                           "reproduced_on_rerun": bool(again)})
+
+
 def replay(ctx, rp):
     v = rp.get("violation", {}).get("detail", {})
     print(rp.get("violation", rp))
+    if v and "scripts" in v:
+        runs = H.replay_scripts(eval(v["scripts"], {}), v["order"])
+        probs = H.session_problems(runs[v["index"]])
+        print("now:", probs[0] if probs else "property holds on this session")
+        return 1 if probs else 0
+    if v and "case" in v and "surface" in v:
+        what = H.replay_case(v)
+        print("now:", what[1] if what else "property holds on this input")
+        return 1 if what else 0
     if not v or "surface" not in v:
         return 0
     decls = [d if d == "b" else tuple(d) for d in v["decls"]]
